@@ -278,6 +278,33 @@ func evalCase(d caseDesc) ev.Result {
 		}
 	}
 
+	if a.Kind == "engine-fault" {
+		// The device's HMAC objects behave like a hardware engine whose a.Entry-th computation fails
+		// (no digest, error reported through Err() until Reset). With a.Swap the owner additionally
+		// presents a voucher whose header HMAC value is EMPTY and whose entries were re-made over that
+		// header+HMAC with the real manufacturer and owner keys (a colluding manufacturer): only the
+		// HMAC under the device secret distinguishes it.
+		fa := a.Entry % 4
+		w.dev.HmacFailAt = &fa
+		delivered = true
+		if a.Swap {
+			base, err := w.owner.State.RemoveVoucher(ctx, w.dev.Cred.GUID)
+			if err != nil {
+				return ev.Failf("setup", "engine-fault: %v", err)
+			}
+			base.Entries = nil
+			base.Hmac.Value = []byte{}
+			forged, err := extendChain(d.Cfg, base, ownersFor(d.Chain))
+			if err != nil {
+				return ev.Failf("setup", "engine-fault: re-extending over an empty HMAC: %v", err)
+			}
+			if err := w.owner.State.AddVoucher(ctx, forged); err != nil {
+				return ev.Failf("setup", "engine-fault: %v", err)
+			}
+			w.voucher = forged
+			serveEntries = entryItems(forged)
+		}
+	}
 	link.OnResponse = func(ex *deploy.Exchange) *deploy.Action {
 		switch {
 		case ex.RespType == 61 && ex.ReqType == 60:
@@ -619,6 +646,8 @@ func evalCase(d caseDesc) ev.Result {
 		cls = "zero-entries/" + a.Signer
 	case "takeover":
 		cls = fmt.Sprintf("takeover/%s/%s", a.Signer, posClass(a.Entry%max(d.Chain, 1), d.Chain))
+	case "engine-fault":
+		cls = fmt.Sprintf("engine-fault/sum%d/empty-hmac=%v", a.Entry%4, a.Swap)
 	}
 	tag := fmt.Sprintf("%s/%s chain=%d to1d=%v reuse=%v", d.Cfg.Key, d.Cfg.Enc, d.Chain, d.To1d, d.Reuse)
 
@@ -690,7 +719,7 @@ var configs = func() []deploy.Config {
 }()
 
 func genAttack(t *rapid.T, chain int) attack {
-	kind := rapid.SampledFrom([]string{"mutate", "mutate", "mutate", "resign61", "resign-entry", "foreign-device", "foreign-mfg", "foreign-last-entry", "zero-entries", "entries", "to1d", "stale", "transport", "takeover"}).Draw(t, "kind")
+	kind := rapid.SampledFrom([]string{"mutate", "mutate", "mutate", "resign61", "resign-entry", "foreign-device", "foreign-mfg", "foreign-last-entry", "zero-entries", "entries", "to1d", "stale", "transport", "takeover", "engine-fault"}).Draw(t, "kind")
 	a := attack{Kind: kind}
 	switch kind {
 	case "mutate":
@@ -705,6 +734,9 @@ func genAttack(t *rapid.T, chain int) attack {
 		a.Swap = rapid.Bool().Draw(t, "swap")
 	case "foreign-device":
 		a.Resigned = rapid.Bool().Draw(t, "resigned")
+	case "engine-fault":
+		a.Entry = rapid.IntRange(0, 3).Draw(t, "failat")
+		a.Swap = rapid.IntRange(0, 2).Draw(t, "emptyhmac") > 0
 	case "takeover":
 		a.Entry = rapid.IntRange(0, chain-1).Draw(t, "entry")
 		a.Tail = rapid.IntRange(0, 2).Draw(t, "tail")
@@ -741,7 +773,7 @@ func genCase(t *rapid.T) caseDesc {
 	if d.Attack.Kind == "to1d" {
 		d.To1d = true
 	}
-	if d.Attack.Kind == "takeover" {
+	if d.Attack.Kind == "takeover" || d.Attack.Kind == "engine-fault" {
 		d.To1d = false // the genuine owner's to1d would be refused for its own reason
 	}
 	return d
@@ -778,7 +810,7 @@ func TestC01(t *testing.T) {
 		return res
 	})
 
-	r.SetRule("attacks", "configuration × chain 1..3 × to1d/bypass × reuse/replace × one attack applied by a man-in-the-middle to the honest owner's traffic: (a) one structure-aware mutation anywhere in ProveOVHdr (COSE headers, payload, OVHeader, HMAC, counts, nonce, xA, hash) or in an OVNextEntry; (b) ProveOVHdr re-signed by stranger / manufacturer / earlier owner / device key / key of another kind, with and without swapping the advertised owner key; last entry re-signed (and re-pointed) by another key; (c) another device's voucher presented verbatim or re-signed by the genuine owner over this session's nonce and hash (only the header HMAC distinguishes), a voucher rooted in another manufacturer key carrying a correct HMAC computed with the device secret (only the key hash distinguishes), a ProveOVHdr replayed from an earlier session (the two sessions' HelloDevice nonces must differ); a last entry taken from another device's voucher, zero entries with a self-advertised key; (d) entries truncated / extended / swapped / mis-numbered / mis-counted; to1d mutated or re-signed; (e) wrong Message-Type, injected error, dropped response. Oracle: an independent reference decides from the delivered bytes whether every listed condition holds; if not, TO2 must return an error and no credential, no device-module callback may happen and no type-64 request may be sent (leniently equivalent re-encodings excepted). Non-trivial: delivered attack that the reference rejects; distinct by descriptor.")
+	r.SetRule("attacks", "configuration × chain 1..3 × to1d/bypass × reuse/replace × one attack applied by a man-in-the-middle to the honest owner's traffic: (a) one structure-aware mutation anywhere in ProveOVHdr (COSE headers, payload, OVHeader, HMAC, counts, nonce, xA, hash) or in an OVNextEntry; (b) ProveOVHdr re-signed by stranger / manufacturer / earlier owner / device key / key of another kind, with and without swapping the advertised owner key; last entry re-signed (and re-pointed) by another key; (c) another device's voucher presented verbatim or re-signed by the genuine owner over this session's nonce and hash (only the header HMAC distinguishes), a voucher rooted in another manufacturer key carrying a correct HMAC computed with the device secret (only the key hash distinguishes), a ProveOVHdr replayed from an earlier session (the two sessions' HelloDevice nonces must differ); a last entry taken from another device's voucher, zero entries with a self-advertised key; (d) entries truncated / extended / swapped / mis-numbered / mis-counted; to1d mutated or re-signed; (e) wrong Message-Type, injected error, dropped response; (f) the device's HMAC objects behave like a hardware engine whose n-th computation fails (no digest, error via Err() until Reset), with an honest owner or with a colluding-manufacturer voucher whose header HMAC is empty. Oracle: an independent reference decides from the delivered bytes whether every listed condition holds; if not, TO2 must return an error and no credential, no device-module callback may happen and no type-64 request may be sent (leniently equivalent re-encodings excepted). Non-trivial: delivered attack that the reference rejects; distinct by descriptor.")
 	ev.Rapid(r, "attacks", ev.N{Quick: 8000, Thorough: 200000}, genCase, evalCase)
 	ev.CheckWitness(r, "attacks", evalCase)
 }
